@@ -141,6 +141,11 @@ def comment_cases():
             lines += [l.format(M="_('m-%s')" % kind) for l in tl]
             lines += ["", "${_('later-%s')}" % kind]
             out.append((kind, gap, "\n".join(lines) + "\n", "m-%s" % kind, "later-%s" % kind))
+    # another construct with a message right behind the commented one, on the same line: it is not the comment's construct
+    for kind, tl, off in [c for c in CONSTRUCTS if len(c[1]) == 1 and c[2] == 0 and not c[1][0].startswith(("%", "<%page", "<%def", "<%block", "<%call", "<%self"))]:
+        for second in ("${{_('later-{K}')}}", "${{'w' | wrap(_('later-{K}'))}}", "<% later = _('later-{K}') %>"):
+            line = tl[0].format(M="_('m-%s')" % kind) + " " + second.replace("{K}", kind).replace("{{", "{").replace("}}", "}")
+            out.append((kind + "+same-line", 0, "\n".join(["text", "## TRANSLATORS: note for %s" % kind, line, ""]) + "\n", "m-%s" % kind, "later-%s" % kind))
     return out
 
 
